@@ -27,11 +27,18 @@ func TestC07(t *testing.T) {
 		},
 		Mix:      mix,
 		MaxPlain: 4, MinRel: 0, MaxRel: 3,
+		Once: func(t *testing.T, st *core.Stats) {
+			// beyond the generated sizes: more registrations in one world's life than fit 16 bits
+			if msg := cacheChurnProbe(66000); msg != "" {
+				probeFail(t, "C07", "cachechurn", msg)
+			}
+			st.Count("filter_churn_probes", 1)
+		},
 		Setup: func(rt *rapid.T, sim *core.Sim, g *core.Gen) {
 			g.TargetRemovalPct = 40
 			g.DeadFilterTargets = true
 		},
-		Rule: "relation-heavy histories plus Cache.Register/Unregister at arbitrary times (before any matching table exists, between, after; up to 5 registrations alive) over the full filter grammar (relation filters with alive, dead, zero and - across Reset - re-issued targets), Reset cycles, and 60% of all queries, batch operations and RemoveEntities issued through a registered filter; oracle after EVERY op and for EVERY registered filter: Query(&cached) yields the same entity set and Count as Query(original); a batch call through &cached must affect exactly the set Query(original) yielded immediately before it (the model then applies the single-entity rule to that set and the world must match); Unregister returns the original filter value; hook: cached table list == list recomputed from scratch, removal index consistent; non-trivial = while a filter was registered a table was retired (or the world reset) and afterwards that filter selected >= 1 entity",
+		Rule: "(enumerated once per run: 66000 Register/Unregister rounds next to one long-lived registration, compared with the originals around the 16-bit boundary) relation-heavy histories plus Cache.Register/Unregister at arbitrary times (before any matching table exists, between, after; up to 5 registrations alive) over the full filter grammar (relation filters with alive, dead, zero and - across Reset - re-issued targets), Reset cycles, and 60% of all queries, batch operations and RemoveEntities issued through a registered filter; oracle after EVERY op and for EVERY registered filter: Query(&cached) yields the same entity set and Count as Query(original); a batch call through &cached must affect exactly the set Query(original) yielded immediately before it (the model then applies the single-entity rule to that set and the world must match); Unregister returns the original filter value; hook: cached table list == list recomputed from scratch, removal index consistent; non-trivial = while a filter was registered a table was retired (or the world reset) and afterwards that filter selected >= 1 entity",
 		Observe: func(tr *tracker, op *core.Op) {
 			s := tr.sim
 			_, retired, _ := core.TableCounts(s.B.W)
